@@ -398,7 +398,8 @@ fn combos(tier: Tier) -> Vec<Combo> {
                 margs.push(Marg::Remove(s.clone()));
                 let mut rev = s.clone();
                 rev.reverse();
-                if rev != s && tier.thorough() {
+                // the list written in descending order (quick: on the spectrum with three axes)
+                if rev != s && (tier.thorough() || d == 3) {
                     margs.push(Marg::Remove(rev));
                 }
                 margs.push(Marg::Keep(s));
@@ -499,6 +500,10 @@ pub fn run(tier: Tier) -> i32 {
         ("stdin", J::s(text_of(&spectra()[2]))),
     ]));
 
+    {
+        let sp: Vec<(Vec<String>, Vec<u8>)> = cs.iter().enumerate().filter(|(i, c)| i % 5 == 0 && c.spectrum < FIRST_BIG).map(|(_, c)| (combined_args(c), text_of(&spectra()[c.spectrum]).into_bytes())).collect();
+        super::spelling_part(&mut rep, "C13", "every fifth option combination of the main part", &sp, &scratch);
+    }
     // verbosity flags must not change what view prints
     {
         let flags = ["-q", "-qq", "-v", "-vv"];
